@@ -175,6 +175,14 @@ def plan(spec):
         return [call_line(spec, ds, named=spec["dom"]), call_line(spec, ds, named=-1)]
     if r == "zero":
         return [call_line(spec, ds)]
+    if r == "reuse":       # fresh Geometry for B vs one Geometry object loaded with A, used with the same list, re-loaded with B
+        if spec["fn"] == "dsm":
+            fresh = dsm_line(spec["mid"], spec["cfg"], -1, ds)
+            reuse = core.fcase("c08", [10, spec["midA"], spec["mid"], 0, spec["cfg"][0], spec["cfg"][1], len(ds), 0], [spec["cfg"][2]] + flat(ds))
+        else:
+            fresh = ip_line(spec["mid"], -1, spec["pts"], ds)
+            reuse = core.fcase("c08", [10, spec["midA"], spec["mid"], 1, 3, 0, len(ds), len(spec["pts"])], [0.0] + flat(ds) + flat(spec["pts"]))
+        return [fresh, reuse]
     if r == "star":        # SurfSourceMat on two source meshes that differ away from the listed source vertices
         return [core.fcase("c08", [9, spec["mid"], spec["files"][0]], []), core.fcase("c08", [9, spec["mid"], spec["files"][1]], [])]
     raise ValueError(r)
@@ -266,6 +274,16 @@ def judge(spec, res):
         if len(A) != len(B) or any(not same_col(spec, a, b) for a, b in zip(A, B)):
             out.append(("named domain: differs from located", "%s: naming domain #%d explicitly gives other columns than letting the library locate the dipoles (which all lie in it)" % (fn, spec["dom"])))
         return out
+    if r == "reuse":
+        A, B = M
+        if A is None and B is None: return out
+        if A is None or B is None or len(A) != len(B) or any(not same_bits(a, b) for a, b in zip(A, B)):
+            k = next((i for i in range(min(len(A or []), len(B or []))) if not same_bits(A[i], B[i])), 0)
+            out.append(("history: a re-loaded Geometry object gives other columns than a fresh one",
+                        "%s on a Geometry object that was loaded with head #%d, used with the same dipole list, and re-loaded with head #%d differs from a fresh Geometry for head #%d (%s; first differing column %d, max|fresh| %g, max|reused| %g): the column of a dipole depends on what the object located before"
+                        % (fn, spec["midA"], spec["mid"], spec["mid"], "the re-used object %s" % ("throws / crashes" if B is None else "returns"), k,
+                           colmax(A[k]) if A and k < len(A) else float("nan"), colmax(B[k]) if B and k < len(B) else float("nan"))))
+        return out
     if r == "star":
         A, B = M
         spec["_threw"] = int(A is None) + int(B is None)
@@ -340,7 +358,7 @@ def integ_cases(rng, rules, n):
     return out
 
 # ----------------------------------------------------------------------------------------------- main
-def gen_model_specs(rng, h, mid, m, quick, rules=None, consts=None):
+def gen_model_specs(rng, h, mid, m, quick, rules=None, consts=None, prev_mid=None):
     """writes the model, asks the library where candidate points lie, and returns (specs, struct jobs, info)"""
     models.write_model(m, os.path.join(h.wd, "m%d" % mid))
     cand = candidate_points(rng, m, 60 if quick else 150)
@@ -413,6 +431,13 @@ def gen_model_specs(rng, h, mid, m, quick, rules=None, consts=None):
         for cfg in CFGS[:2]:
             specs += site_specs(dict(fn="dsm", mid=mid, cfg=list(cfg[:3])), site[0], site[1], site[2], mom, zero_of)
         specs += site_specs(dict(sp), site[0], site[1], site[2], mom, zero_of)
+    # reuse stream (history): the previous head of this run is loaded into the same Geometry object first
+    if prev_mid is not None and len(site) == 3:
+        d2 = [tuple(site[0]) + mom(), tuple(site[1]) + mom(), tuple(site[2]) + mom(), tuple(site[0]) + mom()]
+        for ds_ in ([dips[0]], d2, dips):
+            specs.append(dict(fn="dsm", rel="reuse", mid=mid, midA=prev_mid, cfg=list(CFGS[0][:3]), dips=ds_))
+        specs.append(dict(fn="dsm", rel="reuse", mid=mid, midA=prev_mid, cfg=list(CFGS[1][:3]), dips=[dips[-1]]))
+        specs.append(dict(sp, rel="reuse", midA=prev_mid, dips=[dips[0]])); specs.append(dict(sp, rel="reuse", midA=prev_mid, dips=d2))
     # EITSourceMat: point electrodes next to the scalp; same locality relations (columns = electrodes)
     R_ = m["info"]["outer_radius"]; c_ = m["info"].get("centre", (0, 0, 0))
     els = [tuple(x) + (0.0, 0.0, 0.0) for x in models.sensors_on_sphere(rng, rng.randint(2, 5), c_, 1.01 * R_)]     # padded to 6 numbers, only 3 are sent
@@ -524,6 +549,7 @@ def run_specs(ck, h, specs, mdl_of, env=None):
         for sig, text in fails:
             nfail += 1
             rep = dict(kind="relation", spec={k: v for k, v in s.items() if not k.startswith("_")}, model=mdl_of(s), replay_cmd="./check C08 --replay <this file>")
+            if s.get("midA") is not None: rep["modelA"] = mdl_of(dict(mid=s["midA"]))
             if s["rel"] == "locality" and "_bad" in s:
                 # S: minimise to two dipoles
                 i = s["_bad"]; best = None
@@ -556,6 +582,9 @@ def main(replay=None):
                 m = rp["model"]; m["meshes"] = [(n, [tuple(v) for v in vs], [tuple(t) for t in ts]) for n, vs, ts in m["meshes"]]
                 model_store[s.get("mid")] = m
                 models.write_model(m, os.path.join(h.wd, "m%d" % s["mid"]))
+                if rp.get("modelA") is not None:
+                    mA = rp["modelA"]; mA["meshes"] = [(n, [tuple(v) for v in vs], [tuple(t) for t in ts]) for n, vs, ts in mA["meshes"]]
+                    models.write_model(mA, os.path.join(h.wd, "m%d" % s["midA"]))
                 if s.get("src"):
                     vs, vs2, t0 = s["src"]; d = os.path.join(h.wd, "m%d" % s["mid"])
                     models.write_tri(os.path.join(d, "src0.tri"), [tuple(v) for v in vs], [tuple(t) for t in t0]); models.write_tri(os.path.join(d, "src1.tri"), [tuple(v) for v in vs2], [tuple(t) for t in t0])
@@ -633,7 +662,7 @@ def main(replay=None):
             m["info"]["margin_length"] = max(max(math.sqrt(sum((v[k] - cc[k]) ** 2 for k in range(3))) for v in vs)
                                              for _, vs, _ in m["meshes"] for cc in [tuple(sum(v[k] for v in vs) / len(vs) for k in range(3))])
         model_store[mid] = m
-        g = gen_model_specs(ck.rng, h, mid, m, quick, rules, consts)
+        g = gen_model_specs(ck.rng, h, mid, m, quick, rules, consts, prev_mid=(mid - 1 if mid > 0 else None))
         if g is None:
             ck.violation("harness: geometry", "generated model %d (%s) could not be loaded by the library" % (mid, kind), dict(kind="harness", model=m), found_input=False)
             continue
